@@ -396,6 +396,61 @@ def rule_numbers(ck, facts, lang):
                 ck.bad(R, "template|%s" % fs[0].short, "%s formats a number for a generated literal with template %s while the other sites use %s: lifted numbers lose their exact value" % (fs[0].short, k, major), fs[0].where())
 
 
+
+def rule_typed_first(ck, facts, lang, R="C09.numbers"):
+    """a number whose type is known is never put through the guess that takes small bit patterns for handles"""
+    from ..cfg import dominators
+
+    ck.rule(R + ".typed-first", "the untyped word-to-code conversion (by role: the function that asks both the array storage and the code-value table whether a raw word is one of their handles, and otherwise reads it as a float) is a guess: 0.0 and the subnormals have the bit patterns of small handles. Where a conversion knows the type of the value (it dispatches on `Type`), it calls the guess only behind a positive answer of the array storage for that word, or when no type was available")
+    H = set()
+    for f in lang.fns:
+        if COMB not in f.path or f.kind not in ("fn", "assoc"):
+            continue
+        nm = {(callee(t) or "").split("::")[-1] for _, t in f.calls()}
+        if "try_get_array" in nm and "try_get_code" in nm:
+            H.add(f.path)
+    ck.require(R, len(H) >= 1, "anchor|heuristic", "the untyped word-to-code conversion was not found")
+    n = 0
+    for f in lang.fns:
+        if COMB not in f.path or f.kind == "promoted" or f.path in H:
+            continue
+        sites = [(b, t) for b, t in f.calls() if (callee(t) or "") in H]
+        if not sites:
+            continue
+        cov = cover.coverage(facts, f, roles.TYPE)
+        if cov is None or cov.primary is None:
+            continue  # no type in sight: the fallback
+        dom = dominators(f)
+        di = DefIndex(f)
+        for b, t in sites:
+            if cov.primary.block not in dom[b]:
+                continue  # not inside the dispatch on the type
+            n += 1
+            guarded = False
+            for d in dom[b]:
+                tt = f.term(d)
+                if tt[KIND] != "switch" or tt[4][0] not in ("cp", "mv"):
+                    continue
+                r = di.resolve(tt[4])
+                if r[0] == "call" and (callee(r[1]) or "").split("::")[-1] in ("is_some", "is_ok") and r[1][5]:
+                    r2 = di.resolve(r[1][5][0])
+                    if r2[0] == "rv" and r2[1][5][0] == "ref":
+                        r2 = di.resolve(["cp", [r2[1][5][1][0], []]])
+                    if r2[0] == "call" and (callee(r2[1]) or "").split("::")[-1] == "try_get_array":
+                        guarded = True
+                if r[0] == "rv" and r[1][5][0] == "disc":
+                    r2 = di.resolve(["cp", [r[1][5][1][0], []]])
+                    if r2[0] == "call" and (callee(r2[1]) or "").split("::")[-1] == "try_get_array":
+                        guarded = True
+            owner = f.root.split("::")[-1]
+            key = "typed-first|%s" % owner
+            if guarded:
+                ck.ok(R, key, {"site": owner})
+            else:
+                ck.bad(R, key, "%s knows the type of the value it lifts and still hands a number to the untyped conversion without first finding the word in the array storage: a macro-stage 0.0 (bit pattern 0, like the subnormals) is taken for code value #0 and an unrelated earlier fragment is spliced instead of the literal" % f.short, f.where(t))
+    ck.floor(R, "typed_calls_of_the_untyped_conversion", n, 1)
+
+
 def rule_gensym(ck, facts, lang, R="C09.gensym"):
     ck.rule(R, "names invented by the staging translation (strings built with format!/to_string and turned into symbols inside translate_staging) come only from the gensym function that draws from a counter")
     n = 0
@@ -559,6 +614,7 @@ def run(ck, facts, tier):
     em, reg = rule_names(ck, facts, lang)
     rule_decode(ck, facts, lang, em, reg)
     rule_offsets(ck, facts, lang)
+    rule_typed_first(ck, facts, lang)
     rule_numbers(ck, facts, lang)
     rule_gensym(ck, facts, lang)
     rule_rebuild(ck, facts, lang)
